@@ -38,3 +38,118 @@ Proof.
   - cbn [N.eqb]. rewrite orb_true_iff, !Z.eqb_eq. intuition.
   - rewrite (proj2 (N.eqb_neq _ _) Hd). rewrite orb_true_iff, !Z.eqb_eq. intuition.
 Qed.
+
+(* ---- histories: what stays visible when the process (not the machine) dies ---- *)
+
+Definition vis_ok (s : fs) : Prop := forall m i, dir_get (f_dir s) m = Some i -> i < f_next s.
+
+Section VisibleSave.
+  Variable s : fs.
+  Variable t : N.
+  Variable data : bytes.
+  Hypothesis Hvis : vis_ok s.
+  Hypothesis Ht0 : t <> 0.
+
+  Let inew := f_next s.
+  Definition vtab3 : list (N * inode) :=
+    ino_set (ino_set (ino_set (f_inodes s) inew (IN [] true)) inew (IN data (is_empty data))) inew (IN data true).
+  Definition vs3 : fs :=
+    FS (dir_set (f_dir s) t inew) (f_ddir s) (f_pending s ++ [DLink t inew]) vtab3 (inew + 1).
+
+  Lemma vrun3 : run s [Create t; Write t data; Fsync t] = vs3.
+  Proof.
+    unfold run. cbn [fold_left]. unfold step at 3. unfold step at 2.
+    cbn [f_dir f_ddir f_pending f_inodes f_next].
+    rewrite dir_get_set, N.eqb_refl. unfold ino_set at 1. cbn [ino_get]. rewrite N.eqb_refl.
+    unfold step. cbn [f_dir f_ddir f_pending f_inodes f_next].
+    rewrite dir_get_set, N.eqb_refl. unfold ino_set at 1. cbn [ino_get]. rewrite N.eqb_refl.
+    cbn [i_data i_synced app]. rewrite andb_true_r. reflexivity.
+  Qed.
+
+  Lemma vtab3_old i : i < inew -> ino_get vtab3 i = ino_get (f_inodes s) i.
+  Proof.
+    intro Hi. unfold vtab3, ino_set. cbn [ino_get]. assert (E : (inew =? i) = false) by lia. rewrite E. reflexivity.
+  Qed.
+  Lemma vtab3_new : ino_get vtab3 inew = Some (IN data true).
+  Proof. unfold vtab3, ino_set. cbn [ino_get]. rewrite N.eqb_refl. reflexivity. Qed.
+
+  Lemma read_keep d dd pend :
+    dir_get d 0 = dir_get (f_dir s) 0 -> read (FS d dd pend vtab3 (inew + 1)) 0 = read s 0.
+  Proof.
+    intro Hd. unfold read. cbn [f_dir f_inodes]. rewrite Hd.
+    destruct (dir_get (f_dir s) 0) as [i|] eqn:E; [|reflexivity].
+    rewrite vtab3_old by (apply (Hvis 0 i E)). reflexivity.
+  Qed.
+
+  Lemma vis_ok_set d dd pend tab : (forall m i, dir_get d m = Some i -> i < inew + 1) -> vis_ok (FS d dd pend tab (inew + 1)).
+  Proof. intros H m i E. cbn [f_dir f_next] in *. apply (H m i E). Qed.
+
+  Lemma d1_bound : forall m i, dir_get (dir_set (f_dir s) t inew) m = Some i -> i < inew + 1.
+  Proof.
+    intros m i. rewrite dir_get_set. destruct (t =? m); intro E; [inversion E; lia|].
+    assert (i < inew) by (apply (Hvis m i E)). lia.
+  Qed.
+
+  (* the process dies inside the hook *)
+  Lemma vis_kill :
+    read (run s (firstn 4 (save_ops t data))) 0 = read s 0 /\ vis_ok (run s (firstn 4 (save_ops t data))).
+  Proof.
+    change (firstn 4 (save_ops t data)) with ([Create t; Write t data; Fsync t] ++ [Hook]).
+    unfold run. rewrite fold_left_app. fold (run s [Create t; Write t data; Fsync t]). rewrite vrun3.
+    cbn [fold_left step]. unfold vs3. split.
+    - apply read_keep. rewrite dir_get_set. assert (E : (t =? 0) = false) by lia. rewrite E. reflexivity.
+    - apply vis_ok_set. exact d1_bound.
+  Qed.
+
+  (* the hook fails: the temp file is removed *)
+  Lemma vis_fail :
+    read (run s (save_ops_hook_fails t data)) 0 = read s 0 /\ vis_ok (run s (save_ops_hook_fails t data)).
+  Proof.
+    change (save_ops_hook_fails t data) with ([Create t; Write t data; Fsync t] ++ [Hook; Remove t]).
+    unfold run. rewrite fold_left_app. fold (run s [Create t; Write t data; Fsync t]). rewrite vrun3.
+    cbn [fold_left step vs3 f_dir f_ddir f_pending f_inodes f_next]. split.
+    - apply read_keep. rewrite dir_get_del, dir_get_set. assert (E : (t =? 0) = false) by lia. rewrite E. reflexivity.
+    - apply vis_ok_set. intros m i. rewrite dir_get_del. destruct (t =? m); [discriminate|apply d1_bound].
+  Qed.
+
+  (* Save returns nil *)
+  Lemma vis_full :
+    read (run s (save_ops t data)) 0 = Some data /\ vis_ok (run s (save_ops t data)).
+  Proof.
+    change (save_ops t data) with ([Create t; Write t data; Fsync t] ++ [Hook; Rename t 0; FsyncDir]).
+    unfold run. rewrite fold_left_app. fold (run s [Create t; Write t data; Fsync t]). rewrite vrun3.
+    cbn [fold_left step vs3 f_dir f_ddir f_pending f_inodes f_next dir_apply].
+    rewrite dir_get_set, N.eqb_refl. cbn [f_dir f_ddir f_pending f_inodes f_next]. split.
+    - unfold read. cbn [f_dir f_inodes]. rewrite dir_get_set. cbn [N.eqb]. rewrite vtab3_new. reflexivity.
+    - apply vis_ok_set. intros m i. rewrite dir_get_set. destruct (0 =? m); intro E; [inversion E; lia|].
+      rewrite dir_get_del in E. destruct (t =? m); [discriminate|apply (d1_bound m i E)].
+  Qed.
+End VisibleSave.
+
+(* every history the model can run satisfies the history clause of the monitor *)
+Theorem model_hist_ok : forall plan s n cur,
+  vis_ok s -> code_gen (read s 0) = cur -> hist_ok cur (model_hist s n plan) = true.
+Proof.
+  induction plan as [|[mode idx] plan IH]; intros s n cur Hv Hc; [reflexivity|].
+  cbn [model_hist hist_ok he_save he_loaded he_idx].
+  assert (Ht : n + 1 <> 0) by lia.
+  unfold hist_step, load_bytes.
+  destruct (mode =? 0) eqn:E0.
+  - destruct (vis_full s (n + 1) [idx] Hv Ht) as [Hr Hv'].
+    cbn [N.eqb]. rewrite Hr. cbn [code_gen]. rewrite Z.eqb_refl. cbn [andb].
+    apply IH; [exact Hv'|rewrite Hr; reflexivity].
+  - destruct (mode =? 1) eqn:E1.
+    + destruct (vis_kill s (n + 1) [idx] Hv Ht) as [Hr Hv'].
+      cbn [N.eqb]. rewrite Hr, Hc. unfold old_or_new_b. rewrite Z.eqb_refl. cbn [orb andb].
+      apply IH; [exact Hv'|rewrite Hr; exact Hc].
+    + destruct (vis_fail s (n + 1) [idx] Hv Ht) as [Hr Hv'].
+      cbn [N.eqb]. rewrite Hr, Hc. unfold old_or_new_b. rewrite Z.eqb_refl. cbn [orb andb].
+      apply IH; [exact Hv'|rewrite Hr; exact Hc].
+Qed.
+
+Lemma model_hist_monitor plan :
+  C19_monitor (HistCase (model_hist (fs_start false) 0 plan)) = 0.
+Proof.
+  unfold C19_monitor. rewrite (model_hist_ok plan (fs_start false) 0 (-1)%Z); [reflexivity| |reflexivity].
+  intros m i E. cbn in E. discriminate E.
+Qed.
